@@ -21,6 +21,11 @@
 (*                       operand (instance of T, treat as T, ...)          *)
 (*   "=>"                arrow operator WITH function name and an empty    *)
 (*                       argument list                              (3.1)  *)
+(*   "if(" ")" "then" "else"    if (E) then E1 else E2              (2.0+) *)
+(*   "for" "return"  "let" "return"  "some" "satisfies"  "every" ..        *)
+(*                       for $v in E return E1, let $v := E return E1 (3.0)*)
+(*                       some / every $v in E satisfies E1  -- the opening *)
+(*                       token carries the variable binding                *)
 (*   every other token is a binary infix operator, spelled as in XPath     *)
 (*                                                                         *)
 (* Levels are the productions of the W3C EBNF in the order they nest       *)
@@ -28,7 +33,8 @@
 (* XPath 1.0 section 3: [21] OrExpr .. [27] UnaryExpr, [18] UnionExpr,     *)
 (* [19] PathExpr, [20] FilterExpr):                                        *)
 (*                                                                         *)
-(*   5 ',' | 10 or | 20 and | 30 comparison | 40 '||' | 50 to | 60 + - |   *)
+(*   5 ',' | 7 if for let some every (ExprSingle) | 10 or | 20 and |      *)
+(*   30 comparison | 40 '||' | 50 to | 60 + - |                            *)
 (*   70 mul div idiv mod | 80 union '|' | 90 intersect except |            *)
 (*   100 instance of | 110 treat as | 120 castable as | 130 cast as |      *)
 (*   140 '=>' | 150 unary - + | 160 '!' | 170 / // | 175 leading / // |    *)
@@ -65,20 +71,26 @@ BinOps  == {",", "or", "and"} \cup GeneralComp \cup ValueComp \cup NodeComp \cup
            {"||", "to", "+", "-", "*", "div", "idiv", "mod", "union", "|",
             "intersect", "except", "!"} \cup PathOps
 RootOps == {"root/", "root//"}
+KwOps   == {"if(", "for", "let", "some", "every"}  \* ExprSingle constructs: prefix, with a bracketed first slot
 PreOps  == {"neg", "pos"} \cup RootOps
 TypeOps == {"instance", "treat", "castable", "cast"}   \* postfix, carry their type operand
 PostOps == TypeOps \cup {"=>", "?"}                      \* single-token postfix operators
 POpens  == {"[", "c("}                                    \* postfix operators with an inner expression
 GOpens  == {"(", "f("}                                    \* primaries with an inner expression
-Opens   == POpens \cup GOpens
-Closes  == {")", "]"}
-Operators == BinOps \cup PreOps \cup PostOps \cup POpens
-AllTokens == Operators \cup GOpens \cup Closes \cup {"x"}
+Opens   == POpens \cup GOpens \cup KwOps \cup {"then"}
+Closes  == {")", "]", "else", "return", "satisfies"}
+Operators == BinOps \cup PreOps \cup PostOps \cup POpens \cup KwOps
+AllTokens == Operators \cup Opens \cup Closes \cup {"x"}
 
-CloseOf(o) == IF o = "[" THEN "]" ELSE ")"
+CloseOf(o) == CASE o = "[" -> "]"
+                [] o = "then" -> "else"
+                [] o \in {"for", "let"} -> "return"
+                [] o \in {"some", "every"} -> "satisfies"
+                [] OTHER -> ")"
 
 Kind(s) == CASE s \in BinOps  -> "bin"
              [] s \in PreOps  -> "pre"
+             [] s \in KwOps   -> "kw"
              [] s \in PostOps -> "post"
              [] s \in POpens  -> "popen"
              [] s \in GOpens  -> "gopen"
@@ -89,14 +101,16 @@ Kind(s) == CASE s \in BinOps  -> "bin"
 V10 == {"or", "and", "=", "!=", "<", "<=", ">", ">=", "+", "-", "*", "div", "mod",
         "|", "neg", "/", "//", "root/", "root//", "[", "(", "f("}
 V20 == V10 \cup ValueComp \cup NodeComp \cup
-       {",", "to", "idiv", "union", "intersect", "except", "pos"} \cup TypeOps
-V30 == V20 \cup {"||", "!", "c("}
+       {",", "to", "idiv", "union", "intersect", "except", "pos"} \cup TypeOps \cup
+       {"if(", "then", "for", "some", "every"}
+V30 == V20 \cup {"||", "!", "c(", "let"}
 V31 == V30 \cup {"=>", "?"}
 
 InVersion(v) == CASE v = "1.0" -> V10 [] v = "2.0" -> V20 [] v = "3.0" -> V30 [] OTHER -> V31
 
 Level(v, s) ==
   CASE s = ","   -> 5
+    [] s \in KwOps -> 7      \* [7] ExprSingle ::= ForExpr | LetExpr | QuantifiedExpr | IfExpr | OrExpr
     [] s = "or"  -> 10
     [] s = "and" -> 20
     [] s \in {"=", "!="} -> 30
@@ -133,12 +147,28 @@ Assoc(v, s) ==
 (* with a name character ('-' and '.' are name characters) would fuse:      *)
 (* "a -b", "a div b", "xs:integer -b".  "x" stands for both operand styles  *)
 (* (a name, or '$' + name); "?" is rendered "?k", "=>" as "=> f()".         *)
-Words == {"or", "and", "to", "div", "idiv", "mod", "union", "intersect", "except", "is"} \cup ValueComp \cup TypeOps
-WordEnd(s)   == s \in Words \cup {"x", "?"}
-WordStart(s) == s \in Words \cup {"x", "neg", "-", "f("}
+Words == {"or", "and", "to", "div", "idiv", "mod", "union", "intersect", "except", "is", "then", "else",
+          "return", "satisfies", "for", "some", "every"} \cup ValueComp \cup TypeOps
+WordEnd(s)   == s \in Words \cup {"x", "?"}                            \* "for $v in", "some $v in" end with a word
+WordStart(s) == s \in Words \cup {"x", "neg", "-", "f(", "if(", "let"}
 (* "/" directly followed by a leading "/" would fuse into the token "//" *)
 Fuses(a, b)  == a \in PathOps \cup RootOps /\ b \in RootOps
 NeedSep == {<<a, b>> \in AllTokens \X AllTokens : (WordEnd(a) /\ WordStart(b)) \/ Fuses(a, b)}
+
+(* The tokenisation relation: between any two tokens, before the first and after the  *)
+(* last one, ANY sequence of white space and (2.0+) comments may stand -- comments     *)
+(* nest, and any number of them may follow each other; the sequence must be non-empty  *)
+(* only where NeedSep says so.  Separator items: "sp" "nl" "tab" white space, "c" a    *)
+(* comment, "cn" a comment containing a comment, "c0" a comment without inner spaces.  *)
+SepItems(v) == IF v = "1.0" THEN {"sp", "nl", "tab"} ELSE {"sp", "nl", "tab", "c", "cn", "c0"}
+GapOK(v, a, b, g) == (\A i \in 1..Len(g) : g[i] \in SepItems(v)) /\ (<<a, b>> \in NeedSep => g # <<>>)
+(* the members of the relation that are replayed: one filler per layout, put into EVERY gap *)
+(* ("min": nothing, or one blank where a separator is needed)                               *)
+Layouts(v) ==
+  IF v = "1.0" THEN [min |-> <<>>, spaced |-> <<"sp">>, wide |-> <<"sp", "nl", "tab", "sp">>]
+  ELSE [min |-> <<>>, wide |-> <<"sp", "nl", "tab", "sp">>, comment |-> <<"sp", "cn", "sp">>,
+        comments |-> <<"c", "cn", "sp", "c", "nl", "c">>, tightcomment |-> <<"c0">>]
+LayoutsOK == \A v \in AllVersions : \A n \in DOMAIN Layouts(v) : GapOK(v, "(", "(", Layouts(v)[n])
 
 (* ---- bracket structure ------------------------------------------------- *)
 RECURSIVE DepthVec(_, _)
@@ -167,6 +197,7 @@ IsErr(s) == Len(s) >= 4 /\ SubSeq(s, 1, 4) = "ERR:"
 Ord(t, i, S)   == ToString(Cardinality({k \in 1..i : t[k] \in S}))
 Leaf(t, i)     == "(x" \o Ord(t, i, {"x"}) \o ")"
 Sym(s)         == CASE s = "neg" -> "-" [] s = "pos" -> "+" [] s = "root/" -> "/" [] s = "root//" -> "//" [] OTHER -> s
+KwSym(s)       == IF s = "if(" THEN "if" ELSE s
 Node1(s, a)    == IF IsErr(a) THEN a ELSE "(" \o Sym(s) \o " " \o a \o ")"
 Node2(s, a, b) == IF IsErr(a) THEN a ELSE IF IsErr(b) THEN b ELSE "(" \o Sym(s) \o " " \o a \o " " \o b \o ")"
 PostNode(t, k, a) ==
@@ -176,6 +207,11 @@ PostNode(t, k, a) ==
          [] t[k] = "?"       -> "(? " \o a \o " (K" \o Ord(t, k, {"?"}) \o "))"
 CallNode(a, b) == IF IsErr(a) THEN a ELSE IF IsErr(b) THEN b ELSE "(" \o a \o " " \o b \o ")"   \* dynamic call: no symbol
 FuncNode(t, k, a) == IF IsErr(a) THEN a ELSE "(f" \o Ord(t, k, {"f("}) \o " " \o a \o ")"
+
+Node3(s, a, b, c) == IF IsErr(a) THEN a ELSE IF IsErr(b) THEN b ELSE IF IsErr(c) THEN c
+                     ELSE "(" \o s \o " " \o a \o " " \o b \o " " \o c \o ")"
+(* a ',' outside brackets in t[i..j]: the slot of a keyword expression is an ExprSingle *)
+HasTopComma(t, d, i, j) == \E k \in i..j : t[k] = "," /\ d[k] = d[i]
 
 (* ---- the declarative grouping ------------------------------------------ *)
 (* G(v,t,d,i,j): the tree of the slice t[i..j], which is bracket-balanced.   *)
@@ -212,6 +248,17 @@ G(v, t, d, i, j) ==
               IF t[k] \in PathOps /\ k < j /\ (t[k + 1] \in RootOps \/ (v = "1.0" /\ t[k + 1] # "x"))
               THEN "ERR:step-expected"      \* a path continues with a step (1.0 [3]: '/' Step, no primary)
               ELSE Node2(t[k], G(v, t, d, i, k - 1), G(v, t, d, k + 1, j))
+    [] kd = "kw" ->      \* if ( Expr ) then ExprSingle else ExprSingle  |  for/let/some/every binding ExprSingle
+         LET k  == SetMin(PL)
+             m1 == Match(t, d, k)
+         IN
+         IF k # i THEN "ERR:prefix-as-operand-of-higher-level"
+         ELSE IF t[k] = "if(" THEN
+              LET m2 == Match(t, d, m1 + 1) IN
+              IF HasTopComma(t, d, m1 + 2, m2 - 1) THEN "ERR:expr-single"
+              ELSE Node3("if", G(v, t, d, k + 1, m1 - 1), G(v, t, d, m1 + 2, m2 - 1), G(v, t, d, m2 + 1, j))
+         ELSE IF HasTopComma(t, d, k + 1, m1 - 1) THEN "ERR:expr-single"
+              ELSE Node3(t[k], "(V" \o Ord(t, k, KwOps \ {"if("}) \o ")", G(v, t, d, k + 1, m1 - 1), G(v, t, d, m1 + 1, j))
     [] kd = "pre" ->
          LET k == SetMin(PL) IN
          IF k # i THEN "ERR:prefix-as-operand-of-higher-level"
@@ -247,14 +294,16 @@ GrammarTree(v, t) ==
 (*     leading '/'), "post" (an operand is complete),                        *)
 (*   st stack of <<open token, #operators when it was opened>>,              *)
 (*   n operators so far, g bracket groups "(" "f(" so far.                   *)
-(* A "(" group must contain an operator ("(a)" says nothing about grouping). *)
+(* A "(" group must contain an operator ("(a)" says nothing about grouping)  *)
+(* unless bare = TRUE (then "(a)" and "((a))" are generated: they matter for *)
+(* the source round trip, which must keep every parenthesis).                *)
 (* "instance of T * - x": the '*' is the occurrence indicator of T, and the '-' behind it is then *)
 (* a BINARY minus: the text of <<instance, "*", neg>> is the text of another sentence, never generated *)
 AfterOccurrence(t) == Len(t) >= 2 /\ t[Len(t) - 1] \in {"instance", "treat"} /\ t[Len(t)] \in {"+", "*"}
 
 GenInit == [t |-> <<>>, m |-> "pre", st |-> <<>>, n |-> 0, g |-> 0]
 
-GenExt(s, A, maxOps, maxGroups) ==
+GenExt(s, A, maxOps, maxGroups, bare) ==
   IF s.m \in {"pre", "step"} THEN
        {[s EXCEPT !.t = Append(@, "x"), !.m = "post"]}
        \cup (IF s.n < maxOps /\ s.m = "pre"
@@ -264,14 +313,23 @@ GenExt(s, A, maxOps, maxGroups) ==
        \cup (IF s.g < maxGroups
              THEN {[s EXCEPT !.t = Append(@, o), !.g = @ + 1, !.m = "pre", !.st = Append(@, <<o, s.n>>)] : o \in A \cap GOpens}
              ELSE {})
+       \cup (IF s.n < maxOps /\ s.m = "pre"      \* a keyword expression: its first slot is open now
+             THEN {[s EXCEPT !.t = Append(@, o), !.n = @ + 1, !.st = Append(@, <<o, s.n + 1>>)] : o \in A \cap KwOps}
+             ELSE {})
   ELSE
        (IF s.n < maxOps
         THEN {[s EXCEPT !.t = Append(@, b), !.n = @ + 1, !.m = "pre"] : b \in A \cap BinOps}
              \cup {[s EXCEPT !.t = Append(@, q), !.n = @ + 1] : q \in A \cap PostOps}
              \cup {[s EXCEPT !.t = Append(@, o), !.n = @ + 1, !.m = "pre", !.st = Append(@, <<o, s.n + 1>>)] : o \in A \cap POpens}
         ELSE {})
-       \cup (IF s.st # <<>> /\ (s.st[Len(s.st)][1] # "(" \/ s.n > s.st[Len(s.st)][2])
-             THEN {[s EXCEPT !.t = Append(@, CloseOf(s.st[Len(s.st)][1])), !.st = SubSeq(@, 1, Len(@) - 1)]}
+       \cup (IF s.st # <<>> /\ (s.st[Len(s.st)][1] # "(" \/ bare \/ s.n > s.st[Len(s.st)][2])
+             THEN LET o == s.st[Len(s.st)][1] IN
+                  IF o = "if(" THEN        \* ") then": the second slot opens
+                       {[s EXCEPT !.t = @ \o <<")", "then">>, !.m = "pre",
+                                  !.st = [@ EXCEPT ![Len(@)] = <<"then", s.n>>]]}
+                  ELSE IF o \in KwOps \cup {"then"} THEN     \* the last slot is not bracketed: an operand is due
+                       {[s EXCEPT !.t = Append(@, CloseOf(o)), !.m = "pre", !.st = SubSeq(@, 1, Len(@) - 1)]}
+                  ELSE {[s EXCEPT !.t = Append(@, CloseOf(o)), !.st = SubSeq(@, 1, Len(@) - 1)]}
              ELSE {})
 
 GenComplete(s) == s.m = "post" /\ s.st = <<>>
